@@ -405,6 +405,10 @@ class Run:
             if missing:
                 log(f"NOTE must-hit classes not observed in this (violating) run: {missing}")
             return 1
+        if missing and self.timed_out_shards > 0:
+            # the time budget ran out before the workload was finished: say so, do not guess
+            log(f"INCONCLUSIVE time budget exhausted in {self.timed_out_shards} shard(s) before these classes were observed: {missing}")
+            return 0
         if missing:
             log(f"HARNESS-ERROR must-hit classes not observed: {missing}")
             return 2
